@@ -26,6 +26,25 @@ def attr_written(e):
     return attrs[-1] if attrs else None
 
 
+def is_record_attr(fv, attr):
+    d = fv.E.field_types.get(attr) or {}
+    for t in d.values():
+        ty = fv.E.parse_ty(t).strip_opt()
+        if ty.is_obj and any(c in fv.E.sc.dict_records for c in ty.name.split('|')):
+            return True
+    return False
+
+
+def record_keys_written(e):
+    """x['k'] = .. / x['k'].m(..): literal string keys along the target (fields of dict_record classes)"""
+    out = []
+    while isinstance(e, (ast.Subscript, ast.Attribute)):
+        if isinstance(e, ast.Subscript) and isinstance(e.slice, ast.Constant) and isinstance(e.slice.value, str):
+            out.append(e.slice.value)
+        e = e.value
+    return out
+
+
 def modified(fv, stmts):
     names, fields = set(), set()
 
@@ -36,7 +55,14 @@ def modified(fv, stmts):
             for e in t.elts:
                 tgt(e)
         elif isinstance(t, (ast.Subscript, ast.Attribute)):
+            for k in record_keys_written(t):
+                if k in fv.E.field_types:
+                    fields.add(k)
             a = attr_written(t)
+            if a is not None and is_record_attr(fv, a) and record_keys_written(t):
+                a = None       # x.attr['key'] = v  where attr holds a dict_record object: only field 'key' is written
+                if root_name(t) is None:
+                    pass
             if a is not None:
                 fields.add(a)
             else:
@@ -67,10 +93,12 @@ def modified(fv, stmts):
                 if c is not None:
                     for m in c.modifies:
                         if m.startswith('.'):
-                            fields.add(m[1:])
+                            fields.add(m[1:])      # '.attr' or '.Class.attr' (resolved in havoc)
                         else:
                             names.add(m)
-                            names.add('glob:' + m)
+                            gk = fv.global_key(m)
+                            if gk:
+                                names.add('glob:' + gk)
     return names, fields
 
 
@@ -150,14 +178,20 @@ def havoc(fv, st, names, fields):
         if n in st.env:
             old = st.env[n]
             st.env[n] = fv.fresh_typed(st, n.replace(':', '_'), old.ty)
+        elif n.startswith('glob:') and n[len('glob:'):] in fv.E.sc.globals:
+            # a global the loop may modify but that was not touched before the loop: it still has to be havocked
+            gty = fv.E.parse_ty(fv.E.sc.globals[n[len('glob:'):]])
+            st.env[n] = fv.fresh_typed(st, n.replace(':', '_'), gty)
     for f in sorted(fields):
-        d = fv.E.field_types.get(f)
-        if d is None:
-            continue
-        fty = fv.E.parse_ty(next(iter(d.values())))
-        fv.heap_array(st, f, fty)
-        st.heap[f] = z3.Const('H_%s!%d' % (f, next(fv.E.counter)), z3.ArraySort(P.V, zsort(fty)))
-        st.heap_version += 1
+        from .symexec import Contract_stub
+        allowed = fv.modifies_keys(Contract_stub(['.' + f])) if '.' in f else None
+        for key, fty in fv.field_variants(f.split('.')[-1]):
+            if allowed is not None and key not in allowed:
+                continue
+            f_attr = f.split('.')[-1]
+            fv.heap_array(st, f_attr, fty)
+            st.heap[key] = z3.Const('H_%s!%d' % (key, next(fv.E.counter)), z3.ArraySort(P.V, zsort(fty)))
+            st.heap_version += 1
 
 
 def ghost_assigned(spec):
